@@ -36,6 +36,8 @@ def run(ctx):
     ctx.rule(_gabor_pair)
     ctx.rule(gammatone_frame)
     ctx.rule(fc.banks_stateless, "R-C07-pure")
+    ctx.rule(gammatone_pair)
+    ctx.rule(triangular_impulse)
 
 
 def realness(ctx, R="R-C07-realness"):
@@ -243,3 +245,118 @@ def _coef(core):
         return int(v1)
     except Exception:
         return 99
+
+
+def _sub_attrs(e, fi_name, mapping):
+    """getitem(self._xs, idx) -> symbol, for the per-filter attribute tuples"""
+    m = {}
+    for x in S.walk(e):
+        if cc.is_call(x, "getitem") and x.args[1].op == "sym" and x.args[1].args[0] in mapping:
+            m[x] = S.sym(mapping[x.args[1].args[0]])
+    return S.subst(e, m) if m else e
+
+
+def gammatone_pair(ctx, R="R-C07-gammatone-pair"):
+    """h(t) = c u^(n-1) exp((-alpha + i xi) u), u = t - offset > 0, and H(w) = exp(-i w offset) c (n-1)! / (alpha + i (w - xi))^n
+    are a Fourier pair (Laplace transform of the gamma envelope, shift theorem): both closed forms are compared with that
+    pair - identical normal forms, else floating-point agreement on a declared grid."""
+    prog = ctx.prog
+    c = fc.bank(prog, "ComplexGammatoneFilterBank")
+    amap = {"self._cs": "C", "self._alphas": "ALPHA", "self._xis": "XI", "self._offsets": "OFF"}
+    J = S.const("1j")
+    C, AL, XI, OFF, N_, U, W = (S.sym(x) for x in ("C", "ALPHA", "XI", "OFF", "N", "U", "W"))
+    dom = {"C": [Fraction(3, 10)], "ALPHA": [Fraction(1, 5), Fraction(2)], "XI": [Fraction(7, 10)], "OFF": [Fraction(0), Fraction(-5, 2)],
+           "N": [Fraction(1), Fraction(3), Fraction(4)], "U": [Fraction(3, 2), Fraction(4)], "W": [Fraction(3, 10), Fraction(-1, 2), Fraction(11, 10)]}
+    h = prog.own_method(c, "_h")
+    evh = SymEval(prog, h, rename={"self._order": "N"}, inline_props=False).run()
+    main = [v for g, v, n in evh.returns if h.params[1] in S.symbols(v)]
+    ctx.need(len(main) == 1, R, "_h does not have exactly one non-trivial return")
+    hv = _sub_attrs(main[0], h.params[2], amap)
+    hv = S.subst(hv, {h.params[1]: S.add(U, OFF)})
+    want_h = S.mul(S.mul(C, S.power(U, S.sub(N_, S.ONE))), S.call("exp", S.mul(S.add(S.neg(AL), S.mul(J, XI)), U)))
+    r = S.compare_c(hv, want_h, {k: v for k, v in dom.items() if k != "W"})
+    if r["verdict"] == "differ":
+        ctx.bad(R, h, h.node, "_h is not c u^(n-1) exp((-alpha + i xi) u) at u = t - offset: at %s it gives %s, the gamma envelope %s" % (r["witness"], r["values"][0], r["values"][1]),
+                "impulse response is the shifted complex gamma envelope")
+    elif r["verdict"] in ("equal", "equal-on-grid"):
+        ctx.ok(R, h.loc(), "h(t) = c u^(n-1) exp((-alpha + i xi) u), u = t - offset (%s)" % ("normal form" if r["verdict"] == "equal" else "floating-point agreement at %d grid points" % r["points"]))
+    else:
+        raise AnalysisError("%s: _h: %s" % (R, r.get("reason")))
+    zero = [v for g, v, n in evh.returns if h.params[1] not in S.symbols(v)]
+    ctx.check(all(S.show(v) in ("0j", "0", "'0j'") or (v.is_const and str(v.value) in ("0j", "0")) for v in zero) and len(zero) == 1, R, h, h.node,
+              "h is 0 up to and including the onset t = offset", "early return of _h is %s" % [S.show(v) for v in zero])
+    H = prog.own_method(c, "_H")
+    evH = SymEval(prog, H, rename={"self._order": "N"}, inline_props=False).run()
+    ctx.need(len(evH.returns) == 1, R, "_H has several returns")
+    Hv = S.subst(_sub_attrs(evH.returns[0][1], H.params[2], amap), {H.params[1]: W})
+    want_H = S.truediv(S.mul(S.mul(S.call("exp", S.neg(S.mul(S.mul(J, W), OFF))), C), S.call("factorial", S.sub(N_, S.ONE))),
+                       S.power(S.add(AL, S.mul(J, S.sub(W, XI))), N_))
+    r = S.compare_c(Hv, want_H, {k: v for k, v in dom.items() if k != "U"})
+    if r["verdict"] == "differ":
+        ctx.bad(R, H, H.node, "_H is not exp(-i w offset) c (n-1)! / (alpha + i (w - xi))^n, the transform of _h: at %s it gives %s, expected %s"
+                % (r["witness"], r["values"][0], r["values"][1]), "frequency response is the transform of the impulse response")
+    elif r["verdict"] in ("equal", "equal-on-grid"):
+        ctx.ok(R, H.loc(), "H(w) = exp(-i w offset) c (n-1)! / (alpha + i (w - xi))^n (%s)" % ("normal form" if r["verdict"] == "equal" else "floating-point agreement at %d grid points" % r["points"]))
+    else:
+        raise AnalysisError("%s: _H: %s" % (R, r.get("reason")))
+
+
+def triangular_impulse(ctx, R="R-C07-triangle-pair"):
+    """The triangular bank's impulse response is the inverse transform of its triangle in closed form:
+    h(t) = [ (r-l)/((m-l)(r-m)) E(m t) - E(l t)/(m-l) - E(r t)/(r-m) ] / (k pi t^2), E = exp(i .), k = 2 (analytic) or cos, k = 1 (real),
+    h(0) = (r - l) / (2 k pi); l, m, r the filter's vertices in rad/sample.  Both orderings of the two edge widths are compared."""
+    prog = ctx.prog
+    c = fc.bank(prog, "TriangularOverlappingFilterBank")
+    f = prog.own_method(c, "get_impulse_response")
+    fi = S.sym(f.params[1])
+    l_, m_, r_, T = S.sym("l"), S.sym("m"), S.sym("r"), S.sym("BIN")
+    J = S.const("1j")
+    n = 0
+    for analytic in (True, False):
+        stores = fc.bin_stores(prog, f, {"self._analytic": analytic})
+        prim = [x for x in stores if S.compare(x["index"], T, domain={})["verdict"] == "equal"]
+        if not prim:
+            prim = fc.vector_stores(prog, f, {"self._analytic": analytic})[:1]
+        ctx.need(prim, R, "store of sample t at index t not found in the triangular impulse response")
+        ev = prim[0]["ev"]
+        # vertices in rad/sample
+        vmap = {}
+        for k_, sym_ in ((0, l_), (1, m_), (2, r_)):
+            vmap[S.call("util.hertz_to_angular", S.call("getitem", S.sym("self._vertices"), fi if k_ == 0 else S.add(fi, S.lift(k_))), S.sym("self._rate"))] = sym_
+        # the overall division applied after the loop
+        divs = [n_ for n_ in f.body_nodes() if isinstance(n_, ast.AugAssign) and isinstance(n_.op, ast.Div) and isinstance(n_.target, ast.Name) and n_.target.id == prim[0]["array"]]
+        ctx.need(len(divs) == 1 and ev.reached(divs[0]), R, "final normalisation `res /= ...` not found")
+        den = S.subst(ev.eval_at(divs[0], divs[0].value), vmap)
+        val = S.subst(fc.piecewise(prim), vmap)
+        got = S.truediv(val, den)
+        kappa = S.lift(2 if analytic else 1)
+
+        def osc(a):
+            return S.call("exp", S.mul(S.mul(J, a), T)) if analytic else S.call("cos", S.mul(a, T))
+        want = S.truediv(S.sub(S.sub(S.mul(S.truediv(S.sub(r_, l_), S.mul(S.sub(m_, l_), S.sub(r_, m_))), osc(m_)), S.truediv(osc(l_), S.sub(m_, l_))),
+                               S.truediv(osc(r_), S.sub(r_, m_))), S.mul(S.mul(kappa, S.PI), S.power(T, S.lift(2))))
+        # both orderings of the edge widths, and a symmetric triangle
+        dom = {"BIN": [Fraction(1), Fraction(3)], "l": [Fraction(1, 5)], "m": [Fraction(1, 2), Fraction(9, 10), Fraction(7, 10)], "r": [Fraction(6, 5)]}
+        res = S.compare_c(got, want, dom)
+        n += 1
+        mode = "analytic" if analytic else "real"
+        if res["verdict"] == "differ":
+            w = res["witness"]
+            ctx.bad(R, f, prim[0]["stmt"], "the %s impulse response at sample t is not the inverse transform of the triangle: at %s (lower edge width m-l, upper "
+                    "edge width r-m) it is %s, the closed form gives %s; impulse and frequency responses of such a filter no longer agree"
+                    % (mode, w, res["values"][0], res["values"][1]), "impulse response is the inverse transform of the triangle")
+        elif res["verdict"] in ("equal", "equal-on-grid"):
+            ctx.ok(R, f.loc(prim[0]["stmt"]), "%s: h(t) matches the inverse transform of the triangle for both edge orderings (%s)"
+                   % (mode, "normal form" if res["verdict"] == "equal" else "floating-point agreement at %d grid points" % res["points"]))
+        else:
+            raise AnalysisError("%s: %s" % (R, res.get("reason")))
+        # h(0): the area term added outside the loop
+        zero = [n_ for n_ in f.node.body if isinstance(n_, ast.AugAssign) and isinstance(n_.op, ast.Add) and isinstance(n_.target, ast.Subscript)
+                and astq.text(n_.target.slice) == "0" and astq.base_name(n_.target) == prim[0]["array"]]
+        ctx.need(len(zero) == 1 and ev.reached(zero[0]), R, "the t = 0 term of the triangular impulse response not found")
+        got0 = S.truediv(S.subst(ev.eval_at(zero[0], zero[0].value), vmap), den)
+        want0 = S.truediv(S.sub(r_, l_), S.mul(S.mul(S.lift(2), kappa), S.PI))
+        res = S.compare_c(got0, want0, {k: v for k, v in dom.items() if k != "BIN"})
+        ctx.check(res["verdict"] in ("equal", "equal-on-grid"), R, f, zero[0], "%s: h(0) is the area under the triangle over %s pi: (r - l) / (2 k pi)" % (mode, "2" if analytic else "1"),
+                  "%s: the t = 0 term is %s, expected (r - l)/(2 k pi)%s" % (mode, S.show(got0)[:100], (" e.g. at %s: %s vs %s" % (res.get("witness"), res["values"][0], res["values"][1])) if res["verdict"] == "differ" else ""))
+    ctx.floor(R, n, 2)
